@@ -14,6 +14,10 @@ func init() {
 	extra["F"] = runF
 	extra["M"] = runM
 	extra["O"] = runO
+	// K lines ask the Lean side whether a generated spec / value satisfies the Coherent /
+	// InDomain predicates of Spec/Coherent.lean; the generators are coherent by
+	// construction, so the expected answer is the constant "1"
+	extra["K"] = func(t []string) string { return "1" }
 }
 
 func pathOf(err error) string {
